@@ -61,6 +61,7 @@ func propStream(name string, r *Rand, n int, o *Out) bool {
 		// their serialization (LOBS) and the parse of that serialization
 		stateOut = o
 		streamCorpusChecked(nil, "C03")
+		exhaustiveChecked("C03")
 		setterPairs(r, n, func(h *Hist) {}, "C03")
 		for i := 0; i < n; i++ {
 			randomHistory(r.Fork(), defaultHist("C03"))
@@ -68,6 +69,7 @@ func propStream(name string, r *Rand, n int, o *Out) bool {
 	case "C04":
 		stateOut = o
 		streamCorpusChecked(nil, "C04")
+		exhaustiveChecked("C04")
 		setterPairs(r, n, func(h *Hist) {}, "C04")
 		for i := 0; i < n; i++ {
 			randomHistory(r.Fork(), defaultHist("C04"))
@@ -101,6 +103,7 @@ func propStream(name string, r *Rand, n int, o *Out) bool {
 	case "C19":
 		stateOut = o
 		streamCorpusChecked(nil, "C19")
+		exhaustiveChecked("C19")
 		// every host of the pools, as a special and as a non-special host, through parse, the hostname setter, resolve and
 		// clone: the derived accessors (IsIPv4 / IsIPv6 / DecodedPort …) on hosts that only LOOK like addresses
 		for _, hs := range append(append([]string{}, weirdHosts...), "1.2.3.4", "0x7f.1", "1.2.3", "256.1.1.1", "[::1]", "[1:2::3.4.5.6]", "1.2.3.4.5", "999", "1.2.3.4:80", "h:65535", "h:0") {
@@ -123,6 +126,53 @@ func propStream(name string, r *Rand, n int, o *Out) bool {
 		return false
 	}
 	return true
+}
+
+// exhaustiveChecked: EVERY string over the structural alphabet up to length 3 (thorough, first seed: 4) as an input
+// after three prefixes and as a reference against three bases, and up to length 2 (3) as the value of every setter on
+// three start urls — with the property's oracle evaluated on every reached state (round trip, well-formedness,
+// accessors), and the reached states handed to the correspondence.
+func exhaustiveChecked(prop string) {
+	alphabet := []string{"a", "C", ":", "/", "\\", "?", "#", "@", ".", "%", "2", "e", "[", "]", " ", "|", "\t", "0", "é"}
+	maxLen := 3
+	if v := os.Getenv("VERIF_EXHAUSTIVE"); v != "" {
+		fmt.Sscan(v, &maxLen)
+	}
+	if maxLen <= 0 {
+		return
+	}
+	var all []string
+	var gen func(prefix string, depth int)
+	gen = func(prefix string, depth int) {
+		if depth > 0 {
+			all = append(all, prefix)
+		}
+		if depth < maxLen {
+			for _, a := range alphabet {
+				gen(prefix+a, depth+1)
+			}
+		}
+	}
+	gen("", 0)
+	for _, w := range all {
+		h := &Hist{Check: map[string]bool{prop: true}}
+		h.ParsePkg("a:" + w)
+		h.ParsePkg("http:" + w)
+		h.ParsePkg("http://h" + w)
+		h.ParsePkg("file:" + w)
+		h.ParseRefPkg("http://u:p@h:8/p/q?r#s", w)
+		h.ParseRefPkg("file:///C:/d/e", w)
+		h.ParseRefPkg("sc:/p/q", w)
+		if len([]rune(w)) <= maxLen-1 {
+			for _, st := range []string{"https://u:p@h:8/a/b?q#f", "file:///C:/x", "sc:opaque ?q#f"} {
+				for setter := 0; setter < 9; setter++ {
+					if k := h.ParsePkg(st); k >= 0 {
+						h.Set(k, setter, w)
+					}
+				}
+			}
+		}
+	}
 }
 
 func streamCorpusChecked(o *Out, prop string) {
